@@ -99,6 +99,11 @@ Fixpoint find_def (ds : list (label * gate)) (l : label) : option gate :=
   | (k, g) :: rest => if leqb l k then Some g else find_def rest l
   end.
 
+(* the netlist written down literally: the definitions as a gate map, the declarations as
+   input and output lists *)
+Definition netlist_of (its : list item) : circuit :=
+  mkCircuit (input_decls its) (output_decls its) (defs its) [] [].
+
 (* ---- well-formed lines ---- *)
 Definition item_ok (it : item) : bool :=
   match it with
